@@ -186,7 +186,7 @@ class Letter:
         self.qt = t in op.qubits
         self.cls = cls
         self.degenerate = degenerate  # the channel is the identity or a unitary for this parameter value
-        self.core = core  # 1: member of the core alphabet (long sequences); 2: also of the small core
+        self.core = core  # 1: member of the core alphabet; 2: also of the medium core; 3: also of the small core
         self.outcomes = outcomes  # for 'm': list of digit tuples aligned with ref
 
 
@@ -204,10 +204,10 @@ def letters(seed):
         L.append(Letter(*args, **kw))
 
     # unitaries
-    add("H(a)", cirq.H(a), "u", [HAD], cls="H", core=2)
+    add("H(a)", cirq.H(a), "u", [HAD], cls="H", core=3)
     add("H(b)", cirq.H(b), "u", [HAD], cls="H")
     add(f"X(b)^{g}", cirq.X(b) ** g, "u", [xpow(g)], cls="XPow", core=1)
-    add("CNOT(a,b)", cirq.CNOT(a, b), "u", [CNOT], cls="CNOT", core=2)
+    add("CNOT(a,b)", cirq.CNOT(a, b), "u", [CNOT], cls="CNOT", core=3)
     add("CNOT(b,a)", cirq.CNOT(b, a), "u", [CNOT], cls="CNOT")
     add(f"CZ(b,a)^{g2}", cirq.CZ(b, a) ** g2, "u", [np.diag([1, 1, 1, np.exp(1j * np.pi * g2)])], cls="CZPow", core=1)
     add("U3(t)", cirq.MatrixGate(u3, qid_shape=(3,)).on(t), "u", [u3], cls="MatrixGate3")
@@ -219,7 +219,7 @@ def letters(seed):
         for q in (a, b):
             cr = 0
             add(f"depolarize({p})({q})", cirq.depolarize(p).on(q), "k", k_depolarize(p), cls="depolarize", degenerate=deg,
-                core=2 if (p == 0.1 and q is a) else 0)
+                core=3 if (p == 0.1 and q is a) else 0)
             add(f"asym_depol({p}*(.5,.2,.3))({q})", cirq.asymmetric_depolarize(0.5 * p, 0.2 * p, 0.3 * p).on(q), "k",
                 k_asym(0.5 * p, 0.2 * p, 0.3 * p), cls="asymmetric_depolarize", degenerate=deg,
                 core=1 if (p == 0.5 and q is b) else 0)
@@ -228,12 +228,12 @@ def letters(seed):
             add(f"phase_flip({p})({q})", cirq.phase_flip(p).on(q), "k", k_phase_flip(p), cls="phase_flip",
                 degenerate=deg or p == 1.0, core=1 if (p == 0.5 and q is a) else 0)
             add(f"phase_damp({p})({q})", cirq.phase_damp(p).on(q), "k", k_phase_damp(p), cls="phase_damp", degenerate=deg,
-                core=(2 if (p == 1.0 and q is b) else 1 if (p == 0.0 and q is a) else 1 if (p == 0.1 and q is b) else 0))
+                core=(3 if (p == 1.0 and q is b) else 1 if (p == 0.0 and q is a) else 1 if (p == 0.1 and q is b) else 0))
             add(f"amplitude_damp({p})({q})", cirq.amplitude_damp(p).on(q), "k", k_amp_damp(p), cls="amplitude_damp",
-                degenerate=deg, core=2 if (p == 0.5 and q is b) else 0)
+                degenerate=deg, core=3 if (p == 0.5 and q is b) else 0)
             for pp in PVALS:
                 add(f"gen_amp_damp(p={pp},gamma={p})({q})", cirq.generalized_amplitude_damp(pp, p).on(q), "k", k_gad(pp, p),
-                    cls="generalized_amplitude_damp", degenerate=deg, core=1 if (p == 0.1 and pp == 0.5 and q is a) else 0)
+                    cls="generalized_amplitude_damp", degenerate=deg, core=2 if (p == 0.1 and pp == 0.5 and q is a) else 0)
         for qq in ((a, b), (b, a)):
             add(f"depolarize({p},n=2)({qq[0]},{qq[1]})", cirq.depolarize(p, n_qubits=2).on(*qq), "k", k_depolarize(p, 2),
                 cls="depolarize2", degenerate=deg, core=1 if (p == 0.1 and qq[0] is b) else 0)
@@ -242,23 +242,23 @@ def letters(seed):
                 cirq.asymmetric_depolarize(error_probabilities=dict(d)).on(*qq), "k", k_asym_dict(d), cls="asymmetric_depolarize2",
                 degenerate=deg, core=1 if (p == 0.5 and qq[0] is a) else 0)
     # resets
-    add("reset(a)", cirq.ResetChannel().on(a), "k", k_reset(2), cls="ResetChannel", core=2)
+    add("reset(a)", cirq.ResetChannel().on(a), "k", k_reset(2), cls="ResetChannel", core=3)
     add("reset(b)", cirq.ResetChannel().on(b), "k", k_reset(2), cls="ResetChannel")
     add("reset(t)", cirq.ResetChannel(3).on(t), "k", k_reset(3), cls="ResetChannel3", core=1)
     # user channels
     k1 = generic_kraus(2, 2, seed + 20)
     k1b = generic_kraus(2, 3, seed + 21)
     k2 = generic_kraus(4, 2, seed + 22)
-    add("Kraus2(a)", cirq.KrausChannel([k.copy() for k in k1]).on(a), "k", k1, cls="KrausChannel", core=2)
+    add("Kraus2(a)", cirq.KrausChannel([k.copy() for k in k1]).on(a), "k", k1, cls="KrausChannel", core=3)
     add("Kraus2(b)", cirq.KrausChannel([k.copy() for k in k1]).on(b), "k", k1, cls="KrausChannel")
-    add("Kraus3(b;key=ck)", cirq.KrausChannel([k.copy() for k in k1b], key="ck").on(b), "kk", k1b, key="ck", cls="KrausChannel+key", core=2)
+    add("Kraus3(b;key=ck)", cirq.KrausChannel([k.copy() for k in k1b], key="ck").on(b), "kk", k1b, key="ck", cls="KrausChannel+key", core=3)
     add("Kraus3(a;key=ck)", cirq.KrausChannel([k.copy() for k in k1b], key="ck").on(a), "kk", k1b, key="ck", cls="KrausChannel+key")
-    add("Kraus2x2(b,a)", cirq.KrausChannel([k.copy() for k in k2]).on(b, a), "k", k2, cls="KrausChannel2q", core=1)
+    add("Kraus2x2(b,a)", cirq.KrausChannel([k.copy() for k in k2]).on(b, a), "k", k2, cls="KrausChannel2q", core=2)
     add("Kraus2x2(a,b;key=ck2)", cirq.KrausChannel([k.copy() for k in k2], key="ck2").on(a, b), "kk", k2, key="ck2", cls="KrausChannel2q+key")
     mu = [(0.3, E.generic_unitary(2, seed + 30)), (0.7, E.generic_unitary(2, seed + 31))]
     mu2 = [(0.25, E.generic_unitary(4, seed + 32)), (0.75, E.generic_unitary(4, seed + 33))]
     add("MixedUnitary(b;key=mu)", cirq.MixedUnitaryChannel([(p_, u.copy()) for p_, u in mu], key="mu").on(b), "kk",
-        [np.sqrt(p_) * u for p_, u in mu], key="mu", cls="MixedUnitaryChannel+key", core=2)
+        [np.sqrt(p_) * u for p_, u in mu], key="mu", cls="MixedUnitaryChannel+key", core=3)
     add("MixedUnitary(a)", cirq.MixedUnitaryChannel([(p_, u.copy()) for p_, u in mu]).on(a), "k",
         [np.sqrt(p_) * u for p_, u in mu], cls="MixedUnitaryChannel")
     add("MixedUnitary2q(b,a;key=mu2)", cirq.MixedUnitaryChannel([(p_, u.copy()) for p_, u in mu2], key="mu2").on(b, a), "kk",
@@ -275,7 +275,7 @@ def letters(seed):
     sp1 = E.generic_state(2, seed + 40)
     sp2 = E.generic_state(4, seed + 41)
     add("StatePrep(a)", cirq.StatePreparationChannel(sp1.copy()).on(a), "k", k_state_prep(sp1), cls="StatePreparationChannel", core=1)
-    add("StatePrep(b,a)", cirq.StatePreparationChannel(sp2.copy()).on(b, a), "k", k_state_prep(sp2), cls="StatePreparationChannel2q", core=1)
+    add("StatePrep(b,a)", cirq.StatePreparationChannel(sp2.copy()).on(b, a), "k", k_state_prep(sp2), cls="StatePreparationChannel2q", core=2)
     # measurements and a classically controlled channel
     def projs(dims):
         outs, ps = [], []
@@ -290,15 +290,15 @@ def letters(seed):
         return outs, ps
 
     o, p_ = projs((2,))
-    add("M(a;m)", cirq.measure(a, key="m"), "m", p_, key="m", cls="measure", core=2, outcomes=o)
+    add("M(a;m)", cirq.measure(a, key="m"), "m", p_, key="m", cls="measure", core=3, outcomes=o)
     o, p_ = projs((2, 2))
-    add("M(b,a;m)", cirq.measure(b, a, key="m"), "m", p_, key="m", cls="measure2", core=1, outcomes=o)
+    add("M(b,a;m2)", cirq.measure(b, a, key="m2"), "m", p_, key="m2", cls="measure2", core=1, outcomes=o)
     o, p_ = projs((3,))
     add("M(t;q)", cirq.measure(t, key="q"), "m", p_, key="q", cls="measure3", core=1, outcomes=o)
     add("amplitude_damp(0.5)(b)?m", cirq.amplitude_damp(0.5).on(b).with_classical_controls("m"), "cc", k_amp_damp(0.5), key="m",
-        cls="controlled amplitude_damp", core=2)
+        cls="controlled amplitude_damp", core=3)
     add("depolarize(0.5)(a)?m", cirq.depolarize(0.5).on(a).with_classical_controls("m"), "cc", k_depolarize(0.5), key="m",
-        cls="controlled depolarize")
+        cls="controlled depolarize", core=1)
     return L
 
 
@@ -322,6 +322,7 @@ def _init(seed):
         zero[0] = 1
         _INIT[n] = {0: (zero, np.outer(zero, zero.conj())), 1: (psi, rho)}
     _CACHE.clear()
+    _init_noise(seed)
 
 
 def axes_of(op, n):
@@ -527,10 +528,11 @@ def run_dm(case):
         ref = ref_run(seq, n, rho0, False)
         ref_tot = sum(ref.values())
         got = []
-        has_cc = any(_L[li].kind == "cc" for li in seq)
-        if has_cc:
-            # classical control: final_density_matrix defers the measurements onto ancillas which it expects at the end
-            # of the DEFAULT qubit order (an explicit order list is rejected: reported by stage final_density_matrix_api);
+        has_m = any(_L[li].kind == "m" for li in seq)
+        if has_m:
+            # non-terminal measurements / classical control: final_density_matrix defers the measurements onto ancillas
+            # which it expects at the end of the DEFAULT qubit order (an explicit order list is rejected with "Unexpected
+            # extra qubits": reported by stage final_density_matrix_api);
             # the result lives on the qubits the circuit touches (idle qubits are a |0><0| factor of the reference).
             order = cirq.QubitOrder.DEFAULT
             touched = sorted(full.all_qubits())
@@ -547,10 +549,20 @@ def run_dm(case):
             except TypeError as e:
                 if "unhashable type" in str(e):
                     raise Viol("unhashable", "skip")
+                if "_decompose_" in str(e) and any(_L[li].kind == "kk" for li in seq):
+                    # defer_measurements tries to decompose a non-terminal channel that carries a measurement key
+                    raise Viol("keyed_channel", "skip")
                 raise
             except ValueError as e:
                 if "Wrong shape of qids" in str(e) and any(_L[li].kind == "m" and _L[li].qt for li in seq):
                     raise Viol("qudit measurement", "skip")
+                if "Cannot control channel with non-unitary operators" in str(e) and any(
+                        _L[li].kind == "cc" and not cirq.has_mixture(_L[li].op.without_classical_controls()) for li in seq):
+                    # documented rejection of ControlledGate: a classically controlled non-mixture channel cannot be deferred
+                    raise Viol("uncontrollable channel", "skip")
+                if "Deferred measurement for key=" in str(e) and any(_L[li].kind == "m" and seq.count(li) > 1 for li in seq):
+                    # defer_measurements confuses a mid-circuit measurement with an equal terminal one (api_acceptance reports it)
+                    raise Viol("repeated_measurement defer", "skip")
                 raise
 
         try:
@@ -559,7 +571,8 @@ def run_dm(case):
         except Viol as v:
             if v.kind == "skip":
                 # API rejections of cirq.final_density_matrix that are reported ONCE by stage final_density_matrix_api
-                # (unhashable KrausChannel / MixedUnitaryChannel; measurement of a qudit)
+                # (unhashable KrausChannel / MixedUnitaryChannel; measurement of a qudit; repeated equal measurement) or
+                # documented (classically controlled non-mixture channel)
                 return Res(skipped=True, nontrivial=False, counters={"fdm_rejected_" + str(v).split()[0]: 1})
             return bad(str(v), kind=v.kind)
         if len(got) != 1:
@@ -719,6 +732,838 @@ def describe_sv(case):
 
 
 # ---------------------------------------------------------------------------------------------------
+# stage 3: descriptions of one channel agree (compared as superoperator / Choi matrices, never as Kraus sets)
+
+
+def ref_super(kraus):
+    return sum(np.kron(k, k.conj()) for k in kraus)
+
+
+def ref_choi(kraus, d):
+    """J(E) = (E (x) I)(|phi><phi|), phi = sum_i |i>|i>, straight from the definition."""
+    J = np.zeros((d * d, d * d), dtype=complex)
+    for i in range(d):
+        for j in range(d):
+            eij = np.zeros((d, d), dtype=complex)
+            eij[i, j] = 1
+            J += np.kron(sum(k @ eij @ k.conj().T for k in kraus), eij)
+    return J
+
+
+def ref_super_to_kraus(S, d):
+    """Independent Kraus decomposition of a superoperator (row-major vec) through the Choi matrix."""
+    J = S.reshape(d, d, d, d).transpose(0, 2, 1, 3).reshape(d * d, d * d)
+    w, v = np.linalg.eigh((J + J.conj().T) / 2)
+    return [np.sqrt(max(w_, 0.0)) * v[:, i].reshape(d, d) for i, w_ in enumerate(w) if w_ > 1e-13]
+
+
+HAS_MIXTURE = {"H", "XPow", "CNOT", "CZPow", "MatrixGate3", "MatrixGate23", "depolarize", "asymmetric_depolarize", "bit_flip",
+               "phase_flip", "depolarize2", "asymmetric_depolarize2", "MixedUnitaryChannel", "MixedUnitaryChannel+key",
+               "MixedUnitaryChannel2q+key", "RandomGateChannel(unitary)", "RandomGateChannel(qutrit)", "RandomGateChannel(mixture)"}
+
+
+def close(x, y, tol):
+    x = np.asarray(x)
+    y = np.asarray(y)
+    return x.shape == y.shape and np.abs(x - y).max() <= tol
+
+
+def check_descriptions(name, val, refK, d, want_mixture, tol=1e-6):
+    """All descriptions of `val` describe the map with reference Kraus operators refK (dimension d)."""
+    S = ref_super(refK)
+    J = ref_choi(refK, d)
+    eye = np.eye(d)
+    if not cirq.has_kraus(val):
+        return f"{name}: has_kraus is False"
+    ks = [np.asarray(k) for k in cirq.kraus(val)]
+    if any(k.shape != (d, d) for k in ks):
+        return f"{name}: Kraus operator shapes {[k.shape for k in ks]}, expected {(d, d)}"
+    tp = sum(k.conj().T @ k for k in ks)
+    if not close(tp, eye, tol):
+        return f"{name}: sum K^dag K != 1 (max dev {np.abs(tp - eye).max():.3g})"
+    for fname, got, want in (
+        ("kraus_to_superoperator(kraus)", cirq.kraus_to_superoperator(ks), S),
+        ("kraus_to_choi(kraus)", cirq.kraus_to_choi(ks), J),
+        ("operation_to_superoperator", cirq.operation_to_superoperator(val), S),
+        ("operation_to_choi", cirq.operation_to_choi(val), J),
+        ("choi_to_superoperator(reference Choi)", cirq.choi_to_superoperator(J), S),
+        ("superoperator_to_choi(reference superoperator)", cirq.superoperator_to_choi(S), J),
+        ("kraus_to_superoperator(choi_to_kraus(reference Choi))", cirq.kraus_to_superoperator(cirq.choi_to_kraus(J)), S),
+        ("kraus_to_choi(superoperator_to_kraus(reference superoperator))", cirq.kraus_to_choi(cirq.superoperator_to_kraus(S)), J),
+        ("reference superoperator of choi_to_kraus(kraus_to_choi(kraus))", ref_super(cirq.choi_to_kraus(cirq.kraus_to_choi(ks))), S),
+        ("reference superoperator of superoperator_to_kraus(kraus_to_superoperator(kraus))",
+         ref_super(cirq.superoperator_to_kraus(cirq.kraus_to_superoperator(ks))), S),
+    ):
+        if not close(got, want, tol):
+            return f"{name}: {fname} does not describe the documented map (max dev {np.abs(np.asarray(got) - want).max():.3g})"
+    for fname, ks2 in (("choi_to_kraus", cirq.choi_to_kraus(J)), ("superoperator_to_kraus", cirq.superoperator_to_kraus(S))):
+        tp = sum(np.asarray(k).conj().T @ np.asarray(k) for k in ks2)
+        if not close(tp, eye, tol):
+            return f"{name}: {fname} output is not trace preserving"
+    hm = cirq.has_mixture(val)
+    if want_mixture is not None and hm != want_mixture:
+        return f"{name}: has_mixture is {hm}, expected {want_mixture}"
+    if hm:
+        mix = cirq.mixture(val)
+        ps = [float(p_) for p_, _ in mix]
+        if any(p_ < -1e-9 for p_ in ps) or abs(sum(ps) - 1) > 1e-7:
+            return f"{name}: mixture probabilities {ps} are not a distribution"
+        for p_, u in mix:
+            u = np.asarray(u)
+            if u.shape != (d, d) or not close(u.conj().T @ u, eye, tol):
+                return f"{name}: a mixture component is not a {d}x{d} unitary"
+        Sm = sum(p_ * np.kron(np.asarray(u), np.asarray(u).conj()) for p_, u in mix)
+        if not close(Sm, S, tol):
+            return f"{name}: mixture does not describe the documented map (max dev {np.abs(Sm - S).max():.3g})"
+    return None
+
+
+def run_desc_letter(case):
+    (li,) = case
+    L = _L[li]
+    if L.kind == "cc":
+        return Res(skipped=True, nontrivial=False)
+    d = int(np.prod([q.dimension for q in L.op.qubits]))
+    want = None if L.kind == "m" else (L.cls in HAS_MIXTURE)
+    for nm, val in ((f"operation {L.name}", L.op), (f"gate of {L.name}", L.op.gate)):
+        msg = check_descriptions(nm, val, L.ref, d, want)
+        if msg:
+            return bad(msg, kind="description", cls=L.cls)
+    return Res(ok=True, nontrivial=not L.degenerate and L.kind != "u")
+
+
+def run_desc_circuit(case):
+    """Moment / Circuit _kraus_ / _superoperator_ == ordered product of embedded reference superoperators."""
+    moms = case
+    lis = [li for mo in moms for li in mo]
+    moments = [cirq.Moment([_L[li].op for li in mo]) for mo in moms]
+    circ = cirq.Circuit(moments)
+    qs = sorted(circ.all_qubits())
+    shape = tuple(q.dimension for q in qs)
+    D = int(np.prod(shape))
+    desc = f"moments={[names(mo) for mo in moms]}"
+    if any(_L[li].qt for li in lis):
+        # qudits: Moment._has_kraus_ promises a Kraus representation; reported by stage api_qudit_support when it fails
+        return Res(skipped=True, nontrivial=False)
+    S = np.eye(D * D, dtype=complex)
+    for mo, moment in zip(moms, moments):
+        mqs = sorted(moment.qubits)
+        mshape = tuple(q.dimension for q in mqs)
+        Sm = np.eye(int(np.prod(mshape)) ** 2, dtype=complex)
+        for li in mo:
+            ks = [E.embed(k, [mqs.index(q) for q in _L[li].op.qubits], mshape) for k in _L[li].ref]
+            Sm = ref_super(ks) @ Sm
+        if not cirq.has_kraus(moment):
+            return bad(f"has_kraus(moment) is False: {desc}", kind="moment_kraus")
+        mk = cirq.kraus(moment)
+        if not close(ref_super([np.asarray(k) for k in mk]), Sm, 1e-6):
+            return bad(f"cirq.kraus(Moment {names(mo)}) does not describe the product of its operations' channels "
+                       f"(qubit order {mqs}; max dev {np.abs(ref_super(mk) - Sm).max():.3g})", kind="moment_kraus")
+        if not close(moment._superoperator_(), Sm, 1e-6):
+            return bad(f"Moment._superoperator_ of {names(mo)} differs from the reference", kind="moment_superoperator")
+        ks_full = []
+        for li in mo:
+            ks_full.append([E.embed(k, [qs.index(q) for q in _L[li].op.qubits], shape) for k in _L[li].ref])
+        for ks in ks_full:
+            S = ref_super(ks) @ S
+    if not circ._has_superoperator_():
+        return bad(f"Circuit._has_superoperator_ is False: {desc}", kind="circuit_superoperator")
+    got = circ._superoperator_()
+    if not close(got, S, 1e-6):
+        return bad(f"Circuit._superoperator_ differs from the ordered product of the reference channels on {qs}: max dev "
+                   f"{np.abs(got - S).max():.3g}\n{desc}\n{circ}", kind="circuit_superoperator")
+    return Res(ok=True, nontrivial=any(_L[li].kind != "u" and not _L[li].degenerate for li in lis))
+
+
+# ---------------------------------------------------------------------------------------------------
+# stage 4: noise models
+
+VT = cirq.VirtualTag()
+PT = cirq.devices.noise_utils.PHYSICAL_GATE_TAG
+
+
+class NOp:
+    """An operation of the noise-model circuits with its reference semantics."""
+    __slots__ = ("name", "op", "kind", "ref", "key", "outcomes", "virtual", "physical", "gate_type", "base", "mixture_only")
+
+    def __init__(self, name, op, kind, ref, key=None, outcomes=None, mixture_only=True):
+        self.name, self.op, self.kind, self.ref, self.key, self.outcomes = name, op, kind, ref, key, outcomes
+        self.virtual = VT in op.tags
+        self.physical = PT in op.tags
+        self.base = op.untagged
+        self.gate_type = type(op.without_classical_controls().gate) if kind == "cc" else type(op.gate)
+        self.mixture_only = mixture_only  # False: the state-vector simulator needs random() for it
+
+
+def noise_ops(seed):
+    g = core.generic(seed)
+    g2 = core.generic(seed, 2)
+    proj1 = [np.diag([1, 0]).astype(complex), np.diag([0, 1]).astype(complex)]
+    base = [
+        ("H(a)", cirq.H(a), "u", [HAD], None, None, True),
+        (f"X(b)^{g}", cirq.X(b) ** g, "u", [xpow(g)], None, None, True),
+        ("CNOT(a,b)", cirq.CNOT(a, b), "u", [CNOT], None, None, True),
+        (f"CZ(b,a)^{g2}", cirq.CZ(b, a) ** g2, "u", [np.diag([1, 1, 1, np.exp(1j * np.pi * g2)])], None, None, True),
+        ("amplitude_damp(0.5)(b)", cirq.amplitude_damp(0.5).on(b), "k", k_amp_damp(0.5), None, None, False),
+        ("bit_flip(0.1)(a)", cirq.bit_flip(0.1).on(a), "k", k_bit_flip(0.1), None, None, True),
+        ("M(a;m)", cirq.measure(a, key="m"), "m", proj1, "m", [(0,), (1,)], True),
+        ("M(b;m)", cirq.measure(b, key="m"), "m", proj1, "m", [(0,), (1,)], True),
+        ("M(a,b;m2)", cirq.measure(a, b, key="m2"), "m", [np.kron(p0, p1) for p0 in proj1 for p1 in proj1], "m2",
+         [(0, 0), (0, 1), (1, 0), (1, 1)], True),
+        (f"X(b)^{g2}?m", (cirq.X(b) ** g2).with_classical_controls("m"), "cc", [xpow(g2)], "m", None, True),
+        ("reset(a)", cirq.ResetChannel().on(a), "k", k_reset(2), None, None, True),
+        ("wait(a,50ns)", cirq.wait(a, nanos=50), "u", [I2], None, None, True),
+    ]
+    out = {}
+    for nm, op, kind, ref, key, outc, mo in base:
+        out[nm] = NOp(nm, op, kind, ref, key, outc, mo)
+        out[nm + "[virtual]"] = NOp(nm + "[virtual]", op.with_tags(VT), kind, ref, key, outc, mo)
+        out[nm + "[physical]"] = NOp(nm + "[physical]", op.with_tags(PT), kind, ref, key, outc, mo)
+    return out
+
+
+def noise_gates(seed):
+    g = core.generic(seed, 3)
+    kg = generic_kraus(2, 2, seed + 50)
+    return [
+        ("amplitude_damp(0.3)", cirq.amplitude_damp(0.3), k_amp_damp(0.3), False),
+        ("depolarize(0.1)", cirq.depolarize(0.1), k_depolarize(0.1), True),
+        (f"X^{g}", cirq.X ** g, [xpow(g)], True),
+        ("Kraus2", cirq.KrausChannel([k.copy() for k in kg]), kg, False),
+    ]
+
+
+# moment alphabets (names resolved against noise_ops at run time; VERIF_SEED only changes the generic exponents)
+def moment_alphabet_plain(seed):
+    g = core.generic(seed)
+    g2 = core.generic(seed, 2)
+    X = f"X(b)^{g}"
+    return [
+        (), ("H(a)",), (X,), ("CNOT(a,b)",), ("amplitude_damp(0.5)(b)",), ("M(a;m)",), (f"X(b)^{g2}?m",), ("H(a)", X),
+        ("H(a)[virtual]",), ("CNOT(a,b)[virtual]",), ("H(a)[virtual]", X), ("H(a)[virtual]", X + "[virtual]"),
+        ("M(a;m)", X), ("M(a,b;m2)",), ("reset(a)", X), ("M(a;m)[virtual]",), ("bit_flip(0.1)(a)", "M(b;m)"),
+    ]
+
+
+def moment_alphabet_physical(seed):
+    g = core.generic(seed)
+    g2 = core.generic(seed, 2)
+    X = f"X(b)^{g}"
+    P = "[physical]"
+    return [
+        (), ("H(a)" + P,), (X + P,), ("CNOT(a,b)" + P,), (f"CZ(b,a)^{g2}" + P,), ("M(a;m)" + P,), ("H(a)" + P, X + P), ("H(a)",),
+        ("H(a)" + P, X), ("M(a;m)" + P, X + P), ("wait(a,50ns)" + P,), (f"X(b)^{g2}?m" + P,), ("amplitude_damp(0.5)(b)" + P,),
+        ("M(a,b;m2)" + P,), ("CNOT(a,b)",), ("wait(a,50ns)" + P, X + P),
+    ]
+
+
+_NO = None
+_NG = None
+_MA = None
+_MB = None
+_MC = None
+
+
+def _init_noise(seed):
+    global _NO, _NG, _MA, _MB, _MC
+    _NO = noise_ops(seed)
+    _NG = noise_gates(seed)
+    _MA = moment_alphabet_plain(seed)
+    _MB = moment_alphabet_physical(seed)
+    _MC = moment_alphabet_props(seed)
+
+
+QN = [a, b]
+SHN = (2, 2)
+
+
+def item_of(nop):
+    base = nop.op.without_classical_controls() if nop.kind == "cc" else nop.op
+    ks = [E.embed(k, [QN.index(q) for q in base.qubits], SHN) for k in nop.ref]
+    return (nop.kind, nop.key, nop.outcomes, ks)
+
+
+def item_gate(ref, q):
+    return ("k", None, None, [E.embed(k, [QN.index(q)], SHN) for k in ref])
+
+
+def item_on(ref, qubits):
+    return ("k", None, None, [E.embed(k, [QN.index(q) for q in qubits], SHN) for k in ref])
+
+
+def thermal_ref_kraus(cool, heat, deph, t_ns, dim=2):
+    """Kraus operators of exp(t * Lindbladian) for cooling sqrt(cool)*a, heating sqrt(heat)*a^dag, dephasing sqrt(2*deph)*n."""
+    aop = np.diag(np.sqrt(np.arange(1, dim)), 1).astype(complex)
+    nop_ = np.diag(np.arange(dim)).astype(complex)
+    eye = np.eye(dim)
+    Lb = np.zeros((dim * dim, dim * dim), dtype=complex)
+    for A in (np.sqrt(cool) * aop, np.sqrt(heat) * aop.conj().T, np.sqrt(2 * deph) * nop_):
+        AA = A.conj().T @ A
+        Lb += np.kron(A, A.conj()) - 0.5 * np.kron(AA, eye) - 0.5 * np.kron(eye, AA.T)
+    S = scipy.linalg.expm(Lb * t_ns)
+    return ref_super_to_kraus(S, dim), S
+
+
+INSERT_TABLES = ["specific_first", "general_first", "ambiguous_qubits_first", "ambiguous_type_first"]
+THERMAL_DUR = {"HPowGate": 25.0, "XPowGate": 30.0, "CNotPowGate": 40.0, "CZPowGate": 32.0, "MeasurementGate": 100.0}
+THERMAL_RATES = [
+    # (cool, heat, dephase) per qubit a, b in GHz (exaggerated so the noise is visible)
+    ({"a": 0.004, "b": 0.004}, None, {"a": 0.002, "b": 0.002}),
+    ({"a": 0.01, "b": 0.002}, {"a": 0.001, "b": 0.003}, {"a": 0.0, "b": 0.005}),
+]
+
+
+def insertion_table(which):
+    OpId = cirq.devices.noise_utils.OpIdentifier
+    n_h = ("phase_damp(0.5)(a)", cirq.phase_damp(0.5).on(a), k_phase_damp(0.5), (a,))
+    n_x = ("amplitude_damp(0.3)(b)", cirq.amplitude_damp(0.3).on(b), k_amp_damp(0.3), (b,))
+    n_any = ("bit_flip(0.1)(a)", cirq.bit_flip(0.1).on(a), k_bit_flip(0.1), (a,))
+    n_cx = ("depolarize(0.1,2)(a,b)", cirq.depolarize(0.1, 2).on(a, b), k_depolarize(0.1, 2), (a, b))
+    n_q = ("phase_flip(0.2)(b)", cirq.phase_flip(0.2).on(b), k_phase_flip(0.2), (b,))
+    if which == "specific_first":
+        rows = [(cirq.HPowGate, (), n_h), (cirq.XPowGate, (b,), n_x), (cirq.CNotPowGate, (a, b), n_cx), (cirq.Gate, (), n_any)]
+    elif which == "general_first":
+        rows = [(cirq.Gate, (), n_any), (cirq.CNotPowGate, (a, b), n_cx), (cirq.XPowGate, (b,), n_x), (cirq.HPowGate, (), n_h)]
+    elif which == "ambiguous_qubits_first":
+        # for X(b)**g: (Gate, b) and (XPowGate,) are incomparable -> the first in the table wins
+        rows = [(cirq.Gate, (b,), n_q), (cirq.XPowGate, (), n_x), (cirq.HPowGate, (a,), n_h)]
+    else:
+        rows = [(cirq.XPowGate, (), n_x), (cirq.Gate, (b,), n_q), (cirq.HPowGate, (a,), n_h)]
+    table = {OpId(tp, *qs_): row[1] for tp, qs_, row in rows}
+    return rows, table
+
+
+def ref_insertion_match(rows, nop):
+    """Documented rule: the most specific matching identifier; among incomparable ones the first in the table."""
+    base = nop.op.without_classical_controls() if nop.kind == "cc" else nop.op
+    gate = base.gate
+    if nop.kind == "cc":
+        return None  # a ClassicallyControlledOperation has no gate: never matches
+    match = None
+    for tp, qs_, row in rows:
+        if not isinstance(gate, tp):
+            continue
+        if qs_ and tuple(base.qubits) != tuple(qs_):
+            continue
+        if match is None:
+            match = (tp, qs_, row)
+            continue
+        mtp, mqs, _ = match
+        more_q = bool(qs_) and not mqs
+        more_g = tp is not mtp and issubclass(tp, mtp)
+        proper = (more_q and (more_g or tp is mtp)) or (more_g and (more_q or tuple(qs_) == tuple(mqs)))
+        if proper:
+            match = (tp, qs_, row)
+    return match[2] if match else None
+
+
+class Reject(Exception):
+    pass
+
+
+def build_model(model, sysq):
+    """Returns (cirq noise-model-like, reference function moms -> items or raising Reject, sv_ok)."""
+    kind = model[0]
+    if kind in ("const", "like_gate"):
+        gi = model[1]
+        prepend = model[2] if kind == "const" else False
+        nm, gate, ref, mix = _NG[gi]
+        m = cirq.ConstantQubitNoiseModel(gate, prepend=prepend) if kind == "const" else gate
+
+        def ref_fn(moms):
+            items = []
+            for mo in moms:
+                mi = [item_of(_NO[x]) for x in mo]
+                if mo and all(_NO[x].virtual for x in mo):
+                    items += mi
+                    continue
+                ni = [item_gate(ref, q) for q in sysq]
+                items += (ni + mi) if prepend else (mi + ni)
+            return items
+
+        return m, ref_fn, mix
+    if kind == "none":
+        return None, (lambda moms: [item_of(_NO[x]) for mo in moms for x in mo]), True
+    if kind == "subst":
+        def sub(op):
+            if op.gate == cirq.H:
+                return cirq.phase_damp(0.5).on(*op.qubits)
+            return op
+
+        def ref_fn(moms):
+            items = []
+            for mo in moms:
+                for x in mo:
+                    if _NO[x].base.gate == cirq.H:
+                        items.append(item_on(k_phase_damp(0.5), _NO[x].base.qubits))
+                    else:
+                        items.append(item_of(_NO[x]))
+            return items
+
+        return cirq.devices.noise_model.GateSubstitutionNoiseModel(sub), ref_fn, False
+    if kind == "insertion":
+        _, which, prepend, req = model
+        rows, table = insertion_table(INSERT_TABLES[which])
+        m = cirq.devices.InsertionNoiseModel(ops_added=table, prepend=prepend, require_physical_tag=req)
+
+        def ref_fn(moms):
+            items = []
+            for mo in moms:
+                mi = [item_of(_NO[x]) for x in mo]
+                ni = []
+                for x in mo:
+                    if req and not _NO[x].physical:
+                        continue
+                    row = ref_insertion_match(rows, _NO[x])
+                    if row is not None:
+                        ni.append(item_on(row[2], row[3]))
+                items += (ni + mi) if prepend else (mi + ni)
+            return items
+
+        return m, ref_fn, False
+    if kind == "thermal":
+        _, ri, req, skipm, prepend = model
+        cool, heat, deph = THERMAL_RATES[ri]
+        qmap = {"a": a, "b": b}
+        conv = lambda d: None if d is None else {qmap[k]: v for k, v in d.items()}
+        durs = {getattr(cirq, k): v for k, v in THERMAL_DUR.items()}
+        m = cirq.devices.ThermalNoiseModel({a, b}, durs, heat_rate_GHz=conv(heat), cool_rate_GHz=conv(cool),
+                                           dephase_rate_GHz=conv(deph), require_physical_tag=req, skip_measurements=skipm,
+                                           prepend=prepend)
+
+        def ref_fn(moms):
+            items = []
+            for mo in moms:
+                mi = [item_of(_NO[x]) for x in mo]
+                if not mo:
+                    continue
+                if req:
+                    ph = [_NO[x].physical for x in mo]
+                    if any(ph) and not all(ph):
+                        raise Reject("Moments are expected to be all physical or all virtual ops")
+                    if not any(ph):
+                        items += mi
+                        continue
+                dur = 0.0
+                for x in mo:
+                    nop = _NO[x]
+                    gt = nop.gate_type
+                    d_ = None
+                    for k, v in THERMAL_DUR.items():
+                        if nop.kind != "cc" and issubclass(gt, getattr(cirq, k)):
+                            d_ = v
+                            break
+                    if d_ is None and nop.kind != "cc" and issubclass(gt, cirq.WaitGate):
+                        d_ = 50.0
+                    if d_ is not None:
+                        dur = max(dur, d_)
+                if dur == 0:
+                    items += mi
+                    continue
+                ni = []
+                for q in sysq:
+                    nm = "a" if q == a else "b"
+                    on_q = [x for x in mo if q in _NO[x].base.qubits]
+                    if skipm and on_q and _NO[on_q[0]].kind == "m":
+                        continue
+                    ks, _ = thermal_ref_kraus(cool.get(nm, 0.0), (heat or {}).get(nm, 0.0), (deph or {}).get(nm, 0.0), dur)
+                    ni.append(item_gate(ks, q))
+                items += (ni + mi) if prepend else (mi + ni)
+            return items
+
+        return m, ref_fn, False
+    if kind == "props":
+        _, vi = model
+        pr = PROPS[vi]
+        OpId = cirq.devices.noise_utils.OpIdentifier
+        qmap = {"a": a, "b": b}
+        props = _SCProps(
+            gate_times_ns={getattr(cirq, k): v for k, v in pr["times"].items()},
+            t1_ns={qmap[k]: v for k, v in pr["t1"].items()},
+            tphi_ns={qmap[k]: v for k, v in pr["tphi"].items()},
+            readout_errors={qmap[k]: list(v) for k, v in pr["readout"].items()},
+            gate_pauli_errors={OpId(getattr(cirq, g_), *[qmap[x] for x in qs_]): e for (g_, qs_), e in pr["pauli"].items()},
+        )
+        m = cirq.devices.NoiseModelFromNoiseProperties(props)
+
+        def deco(qn, t_ns):
+            t1, tphi = pr["t1"][qn], pr["tphi"][qn]
+            px = 0.25 * (1 - np.exp(-t_ns / t1))
+            pz = 0.5 * (1 - np.exp(-t_ns * (1 / (2 * t1) + 1 / tphi))) - px
+            return 2 * px + pz
+
+        def ref_fn(moms):
+            items = []
+            for mo in moms:
+                if not mo:
+                    continue
+                pre, post_d, post_t = [], [], []
+                dur = 0.0
+                for x in mo:
+                    nop = _NO[x]
+                    gname = None
+                    if nop.kind != "cc":
+                        for k in pr["times"]:
+                            if issubclass(nop.gate_type, getattr(cirq, k)):
+                                gname = k
+                                dur = max(dur, pr["times"][k])
+                                break
+                        if gname is None and issubclass(nop.gate_type, cirq.WaitGate):
+                            dur = max(dur, 50.0)
+                    qn = tuple("a" if q == a else "b" for q in nop.base.qubits)
+                    if nop.kind == "m":
+                        for q_ in qn:
+                            if q_ in pr["readout"]:
+                                e0, e1 = pr["readout"][q_]  # P(read 1 | 0), P(read 0 | 1)
+                                pre.append(item_gate(k_gad(e1 / (e0 + e1), e0 + e1), qmap[q_]))
+                    elif gname is not None and (gname, qn) in pr["pauli"]:
+                        p_ = pr["pauli"][(gname, qn)] - sum(deco(q_, pr["times"][gname]) for q_ in qn)
+                        if p_ > 0:
+                            post_d.append(item_on(k_depolarize(p_, len(qn)), nop.base.qubits))
+                if dur > 0:
+                    for q in sysq:
+                        qn_ = "a" if q == a else "b"
+                        on_q = [x for x in mo if q in _NO[x].base.qubits]
+                        if on_q and _NO[on_q[0]].kind == "m":
+                            continue
+                        ks, _ = thermal_ref_kraus(1 / pr["t1"][qn_], 0.0, 1 / pr["tphi"][qn_], dur)
+                        post_t.append(item_gate(ks, q))
+                items += pre + [item_of(_NO[x]) for x in mo] + post_d + post_t
+            return items
+
+        return m, ref_fn, False
+    raise core.HarnessError(f"unknown model {model}")
+
+
+class _SCProps(cirq.devices.SuperconductingQubitsNoiseProperties):
+    """A small device description (the library class is abstract in its gate sets)."""
+
+    @classmethod
+    def single_qubit_gates(cls):
+        return {cirq.XPowGate, cirq.HPowGate, cirq.MeasurementGate}
+
+    @classmethod
+    def symmetric_two_qubit_gates(cls):
+        return {cirq.CZPowGate}
+
+    @classmethod
+    def asymmetric_two_qubit_gates(cls):
+        return {cirq.CNotPowGate}
+
+
+PROPS = [
+    {"times": {"HPowGate": 25.0, "XPowGate": 30.0, "CNotPowGate": 40.0, "CZPowGate": 32.0, "MeasurementGate": 100.0},
+     "t1": {"a": 2000.0, "b": 5000.0}, "tphi": {"a": 3000.0, "b": 2500.0},
+     "readout": {"a": (0.02, 0.05), "b": (0.01, 0.03)},
+     "pauli": {("HPowGate", ("a",)): 0.08, ("XPowGate", ("b",)): 0.1, ("CZPowGate", ("a", "b")): 0.2, ("CZPowGate", ("b", "a")): 0.2,
+               ("CNotPowGate", ("a", "b")): 0.25, ("MeasurementGate", ("a",)): 0.03}},
+    {"times": {"HPowGate": 20.0, "XPowGate": 20.0, "CNotPowGate": 60.0, "CZPowGate": 45.0, "MeasurementGate": 500.0},
+     "t1": {"a": 800.0, "b": 1500.0}, "tphi": {"a": 900.0, "b": 700.0},
+     "readout": {"b": (0.04, 0.02)},
+     # the H(a) Pauli error is smaller than its decoherence part: no depolarizing noise is added for it
+     "pauli": {("HPowGate", ("a",)): 0.01, ("XPowGate", ("b",)): 0.15, ("CNotPowGate", ("a", "b")): 0.3}},
+]
+
+
+def moment_alphabet_props(seed):
+    g = core.generic(seed)
+    g2 = core.generic(seed, 2)
+    X = f"X(b)^{g}"
+    return [("H(a)",), (X,), ("CNOT(a,b)",), (f"CZ(b,a)^{g2}",), ("M(a;m)",), ("M(a,b;m2)",), ("H(a)", X), ("M(a;m)", X),
+            (f"X(b)^{g2}?m",), ("wait(a,50ns)",), ("M(b;m)",), ("amplitude_damp(0.5)(b)",), ()]
+
+
+def _all_records(step):
+    """Every instance of every measurement key, from the step's classical data store."""
+    out = []
+    for k, vals in step._classical_data.records.items():
+        for v in vals:
+            out.append((str(k), tuple(int(x) for x in v)))
+    return tuple(out)
+
+
+def dist_dm(circ, init, noise=None, dt="c128", split=False):
+    got = {}
+    n = 0
+    steps = []
+
+    def one(ch):
+        sim = cirq.DensityMatrixSimulator(seed=ScriptedRandomState(ch), dtype=DT[dt], split_untangled_states=split, noise=noise)
+        last = None
+        k = 0
+        for step in sim.simulate_moment_steps(circ, qubit_order=QN, initial_state=init):
+            last = step
+            k += 1
+        steps.append(k)
+        if last is None:  # no step at all (a noise model that drops empty moments): nothing was applied
+            return (), np.asarray(init, dtype=complex)
+        rho = np.asarray(last.density_matrix(copy=True), dtype=complex)
+        check_valid_rho(rho, 1e-7, "(final)")
+        return _all_records(last), rho
+
+    for ch, (rec, rho) in explore(one, max_paths=2000):
+        n += 1
+        got[rec] = got[rec] + ch.weight * rho if rec in got else ch.weight * rho
+    return got, n, max(steps)
+
+
+def dist_sv(circ, init, noise=None, dt="c128", split=False):
+    got = {}
+    n = 0
+
+    def one(ch):
+        sim = cirq.Simulator(seed=ScriptedRandomState(ch), dtype=DT[dt], split_untangled_states=split, noise=noise)
+        last = None
+        for step in sim.simulate_moment_steps(circ, qubit_order=QN, initial_state=init):
+            last = step
+        if last is None:
+            return (), np.outer(init, np.conj(init))
+        psi = np.asarray(last.state_vector(copy=True), dtype=complex)
+        return _all_records(last), np.outer(psi, psi.conj())
+
+    for ch, (rec, rho) in explore(one, max_paths=20000):
+        n += 1
+        got[rec] = got[rec] + ch.weight * rho if rec in got else ch.weight * rho
+    return got, n
+
+
+def moms_valid(moms):
+    measured = set()
+    for mo in moms:
+        for x in mo:
+            if _NO[x].kind == "cc" and _NO[x].key not in measured:
+                return False
+        for x in mo:
+            if _NO[x].kind == "m":
+                measured.add(_NO[x].key)
+    return True
+
+
+_allow_repeated_key = False
+
+
+def run_noise(case):
+    alpha, midx, model = case
+    A = (_MA, _MB, _MC)[alpha]
+    moms = [A[i] for i in midx]
+    if not moms_valid(moms):
+        return Res(skipped=True, nontrivial=False)
+    moments = [cirq.Moment([_NO[x].op for x in mo]) for mo in moms]
+    circ = cirq.Circuit(moments)
+    sysq = sorted(circ.all_qubits())
+    desc = f"model={model} moments={[list(mo) for mo in moms]}"
+    m, ref_fn, sv_ok = build_model(model, sysq)
+    psi, rho0 = _INIT[2][1]
+    if model[0] == "props" and not _allow_repeated_key:
+        by_key = {}
+        for mo in moms:
+            for x in mo:
+                if _NO[x].kind == "m":
+                    by_key.setdefault(_NO[x].key, set()).add(_NO[x].base)
+        if any(len(v) > 1 for v in by_key.values()):
+            # NoiseModelFromNoiseProperties recombines split measurements by key only: two different measurements sharing a
+            # key are both replaced by the later one (reported once by stage api_acceptance)
+            return Res(skipped=True, nontrivial=False, counters={"props_repeated_key_skipped": 1})
+    try:
+        ref_items = ref_fn(moms)
+        rejected = None
+    except Reject as r:
+        ref_items = None
+        rejected = str(r)
+    try:
+        noisy = circ.with_noise(m)
+    except ValueError as e:
+        if rejected and rejected in str(e):
+            return Res(skipped=True, nontrivial=False, counters={"documented_rejections": 1})
+        raise
+    if rejected:
+        return bad(f"with_noise accepted a moment the model documents as rejected ({rejected}): {desc}", kind="noise_rejection")
+    ref = ref_apply(ref_items, rho0, False)
+    paths = 0
+    # (A) with_noise == documented insertion rule, compared as channels on a generic mixed state
+    gotA, n_, _ = dist_dm(noisy, rho0)
+    paths += n_
+    msg = compare(ref, gotA, 1e-8)
+    if msg:
+        return bad(f"circuit.with_noise(model) is not the documented insertion rule (compared as channels): {msg}\n{desc}\n"
+                   f"noisy circuit:\n{noisy}", kind="with_noise_rule", model=model[0])
+    # (B) DensityMatrixSimulator(noise=m) on c == DensityMatrixSimulator() on c.with_noise(m)
+    for split in (False, True):
+        gotB, n_, nsteps = dist_dm(circ, rho0, noise=m, split=split)
+        paths += n_
+        if nsteps != max(len(circ), 1) and model[0] != "props":
+            # (NoiseModelFromNoiseProperties returns one entry per NOISY moment: reported once by stage api_acceptance)
+            return bad(f"simulate_moment_steps with noise=model yielded {nsteps} steps for {len(circ)} moments: {desc}",
+                       kind="steps_per_moment", model=model[0])
+        msg = compare(gotA, gotB, 1e-8) or compare(ref, gotB, 1e-8)
+        if msg:
+            return bad(f"DensityMatrixSimulator(noise=model, split={split}).simulate(c) != simulate(c.with_noise(model)): {msg}\n{desc}",
+                       kind="dm_noise_arg", model=model[0])
+    # (C) Simulator(noise=m): all trajectories (mixture-type noise and operations only: no random() oracle needed)
+    nt = any(_NO[x].kind != "u" or True for mo in moms for x in mo) and model[0] != "none"
+    n_noisy = sum(1 for mo in moms if not (mo and all(_NO[x].virtual for x in mo)))
+    sv_small = sv_ok and (model[0] in ("none", "props") or len(_NG[model[1]][2]) == 1 or n_noisy * len(sysq) <= 2)  # <= 16 noise branches
+    if sv_small and all(_NO[x].mixture_only for mo in moms for x in mo):
+        refp = ref_apply(ref_items, np.outer(psi, psi.conj()), False)
+        g1, n1 = dist_sv(noisy, psi)
+        g2, n2 = dist_sv(circ, psi, noise=m)
+        paths += n1 + n2
+        msg = compare(refp, g1, 1e-8)
+        if msg:
+            return bad(f"Simulator on c.with_noise(model): {msg}\n{desc}", kind="sv_with_noise", model=model[0])
+        msg = compare(g1, g2, 1e-8)
+        if msg:
+            return bad(f"Simulator(noise=model).simulate(c) != Simulator().simulate(c.with_noise(model)): {msg}\n{desc}",
+                       kind="sv_noise_arg", model=model[0])
+    return Res(ok=True, nontrivial=nt and len(ref_items) > sum(len(mo) for mo in moms) or model[0] == "subst", counters={"paths": paths})
+
+
+def run_thermal_kraus(case):
+    """The channel ThermalNoiseModel inserts == exp(t * reference Lindbladian) (scipy expm), compared as superoperators."""
+    ri, gname, prepend = case
+    cool, heat, deph = THERMAL_RATES[ri]
+    qmap = {"a": a, "b": b}
+    conv = lambda d: None if d is None else {qmap[k]: v for k, v in d.items()}
+    durs = {getattr(cirq, k): v for k, v in THERMAL_DUR.items()}
+    m = cirq.devices.ThermalNoiseModel({a, b}, durs, heat_rate_GHz=conv(heat), cool_rate_GHz=conv(cool),
+                                       dephase_rate_GHz=conv(deph), require_physical_tag=False, prepend=prepend)
+    op = {"HPowGate": cirq.H(a), "XPowGate": cirq.X(b), "CNotPowGate": cirq.CNOT(a, b), "CZPowGate": cirq.CZ(a, b),
+          "MeasurementGate": cirq.measure(a, key="m"), "WaitGate": cirq.wait(b, nanos=75)}[gname]
+    dur = THERMAL_DUR.get(gname, 75.0)
+    out = cirq.Circuit(m.noisy_moment(cirq.Moment([op]), [a, b]))
+    noise = [o for o in out.all_operations() if o != op]
+    seen = set()
+    for o in noise:
+        (q,) = o.qubits
+        nm = "a" if q == a else "b"
+        _, S = thermal_ref_kraus(cool.get(nm, 0.0), (heat or {}).get(nm, 0.0), (deph or {}).get(nm, 0.0), dur)
+        got = ref_super([np.asarray(k) for k in cirq.kraus(o)])
+        if not close(got, S, 1e-7):
+            return bad(f"ThermalNoiseModel noise on {q} after {op} ({dur} ns) != expm(t*Lindbladian): max dev {np.abs(got - S).max():.3g}",
+                       kind="thermal_kraus")
+        seen.add(q)
+    want = {a, b} - ({a} if gname == "MeasurementGate" else set())
+    if seen != want:
+        return bad(f"ThermalNoiseModel put noise on {sorted(seen)} after {op}, documented: {sorted(want)}", kind="thermal_kraus")
+    return good()
+
+
+# ---------------------------------------------------------------------------------------------------
+# stage: API-level acceptance of the mixed-state entry points (each case is one minimal circuit)
+
+API_CASES = ["fdm_kraus_channel", "fdm_mixed_unitary_channel", "fdm_state_preparation_channel", "fdm_keyed_channel_midcircuit", "fdm_qutrit_measurement", "fdm_explicit_order_midcircuit_measurement",
+             "fdm_explicit_order_classical_control", "fdm_repeated_measurement_classical_control", "moment_kraus_qutrit", "circuit_superoperator_qutrit", "thermal_noise_qutrit",
+             "noise_properties_one_tree_per_moment", "noise_properties_repeated_key"]
+
+
+def run_api(case):
+    (ci,) = case
+    name = API_CASES[ci]
+    k1 = generic_kraus(2, 2, _SEED + 20)
+    try:
+        if name.startswith("fdm_"):
+            if name == "fdm_kraus_channel":
+                circ, order, items, qs_, shape = cirq.Circuit(cirq.H(a), cirq.KrausChannel([k.copy() for k in k1]).on(a)), [a], [[HAD], k1], [a], (2,)
+            elif name == "fdm_mixed_unitary_channel":
+                u = E.generic_unitary(2, _SEED + 30)
+                circ, order, items, qs_, shape = cirq.Circuit(cirq.H(a), cirq.MixedUnitaryChannel([(0.25, u), (0.75, PX)]).on(a)), [a], \
+                    [[HAD], [0.5 * u, np.sqrt(0.75) * PX]], [a], (2,)
+            elif name == "fdm_state_preparation_channel":
+                sp = E.generic_state(2, _SEED + 40)
+                circ, order, items, qs_, shape = cirq.Circuit(cirq.H(a), cirq.StatePreparationChannel(sp.copy()).on(a)), [a], \
+                    [[HAD], k_state_prep(sp)], [a], (2,)
+            elif name == "fdm_keyed_channel_midcircuit":
+                circ, order, items, qs_, shape = cirq.Circuit(cirq.H(a), cirq.KrausChannel([k.copy() for k in k1], key="ck").on(a), cirq.H(a)), \
+                    [a], [[HAD], k1, [HAD]], [a], (2,)
+            elif name == "fdm_qutrit_measurement":
+                u3 = E.generic_unitary(3, _SEED + 5)
+                circ, order, items, qs_, shape = cirq.Circuit(cirq.MatrixGate(u3, qid_shape=(3,)).on(t), cirq.measure(t, key="q")), [t], \
+                    [[u3], [np.diag(v).astype(complex) for v in np.eye(3)]], [t], (3,)
+            elif name == "fdm_explicit_order_midcircuit_measurement":
+                circ, order, items, qs_, shape = cirq.Circuit(cirq.H(a), cirq.measure(a, key="m"), cirq.H(a)), [a], \
+                    [[HAD], [np.diag([1, 0]).astype(complex), np.diag([0, 1]).astype(complex)], [HAD]], [a], (2,)
+            else:
+                circ = cirq.Circuit(cirq.H(a), cirq.measure(a, key="m"), cirq.X(b).with_classical_controls("m"))
+                order, qs_, shape = [a, b], [a, b], (2, 2)
+                if name == "fdm_repeated_measurement_classical_control":
+                    circ.append(cirq.measure(a, key="m"))  # dephasing again changes nothing
+                    order = cirq.QubitOrder.DEFAULT
+                P0, P1 = np.diag([1, 0]).astype(complex), np.diag([0, 1]).astype(complex)
+                items = [[E.embed(HAD, [0], shape)], [np.kron(P0, I2), np.kron(P1, PX)]]
+            D = int(np.prod(shape))
+            rho = np.zeros((D, D), dtype=complex)
+            rho[0, 0] = 1
+            for ks in items:
+                ks = [k if k.shape == (D, D) else E.embed(k, [0], shape) for k in ks]
+                rho = sum(k @ rho @ k.conj().T for k in ks)
+            got = cirq.final_density_matrix(circ, qubit_order=order, dtype=np.complex128)
+            if not close(got, rho, 1e-7):
+                return bad(f"{name}: final_density_matrix differs from the reference", kind="api", defect=name)
+            return good()
+        if name == "moment_kraus_qutrit":
+            mo = cirq.Moment(cirq.ResetChannel(3).on(t))
+            if not cirq.has_kraus(mo):
+                return Res(skipped=True, nontrivial=False)
+            ks = cirq.kraus(mo)
+            if not close(ref_super([np.asarray(k) for k in ks]), ref_super(k_reset(3)), 1e-7):
+                return bad("cirq.kraus(Moment(reset qutrit)) is not the reset channel", kind="api", defect=name)
+            return good()
+        if name == "circuit_superoperator_qutrit":
+            c = cirq.Circuit(cirq.ResetChannel(3).on(t))
+            if not c._has_superoperator_():
+                return Res(skipped=True, nontrivial=False)
+            if not close(c._superoperator_(), ref_super(k_reset(3)), 1e-7):
+                return bad("Circuit(reset qutrit)._superoperator_ is not the reset channel", kind="api", defect=name)
+            return good()
+        if name == "thermal_noise_qutrit":
+            m = cirq.devices.ThermalNoiseModel({t}, {cirq.MatrixGate: 25.0}, cool_rate_GHz=0.004, dephase_rate_GHz=0.002,
+                                               require_physical_tag=False)
+            u3 = E.generic_unitary(3, _SEED + 5)
+            c = cirq.Circuit(cirq.MatrixGate(u3, qid_shape=(3,)).on(t))
+            noisy = c.with_noise(m)
+            ks, S = thermal_ref_kraus(0.004, 0.0, 0.002, 25.0, dim=3)
+            noise = [o for o in noisy.all_operations() if o.gate != c[0].operations[0].gate]
+            if len(noise) != 1 or not close(ref_super([np.asarray(k) for k in cirq.kraus(noise[0])]), S, 1e-7):
+                return bad("ThermalNoiseModel on a qutrit: inserted noise != expm(t*Lindbladian)", kind="api", defect=name)
+            return good()
+        if name == "noise_properties_one_tree_per_moment":
+            m, _, _ = build_model(("props", 0), [a, b])
+            c = cirq.Circuit(cirq.H(a), cirq.measure(a, key="m"))
+            trees = m.noisy_moments(c, [a, b])
+            steps = sum(1 for _ in cirq.DensityMatrixSimulator(noise=m, seed=0).simulate_moment_steps(c))
+            if len(trees) != len(c) or steps != len(c):
+                return bad(f"NoiseModelFromNoiseProperties.noisy_moments returned {len(trees)} entries for {len(c)} moments (documented: "
+                           f"the k'th tree is the noisy version of the k'th moment); simulate_moment_steps(noise=model) yields {steps} "
+                           f"steps for {len(c)} moments", kind="api", defect=name)
+            return good()
+        if name == "noise_properties_repeated_key":
+            global _allow_repeated_key
+            _allow_repeated_key = True
+            try:
+                r = run_noise((2, (_MC.index(("M(a;m)",)), _MC.index(("M(b;m)",))), ("props", 0)))
+            finally:
+                _allow_repeated_key = False
+            if r is not None and not r.ok:
+                return bad("NoiseModelFromNoiseProperties on Circuit(measure(a, key='m'), measure(b, key='m')) (a repeated key on "
+                           "different qubits): " + r.msg, kind="api", defect=name)
+            return good()
+    except (TypeError, ValueError) as e:
+        return bad(f"{name}: {type(e).__name__}: {e} -- raised by an entry point whose documentation accepts this input "
+                   f"(the DensityMatrixSimulator / the operations themselves accept it)", kind="api", defect=name)
+    raise core.HarnessError(name)
+
+
+# ---------------------------------------------------------------------------------------------------
+
+
+def describe_noise(case):
+    alpha, midx, model = case
+    A = (_MA, _MB, _MC)[alpha]
+    return {"model": list(model), "moments": [list(A[i]) for i in midx]}
+
+
+def describe_desc_circuit(case):
+    return {"moments": [names(mo) for mo in case]}
 
 
 def stages(tier, seed):
@@ -728,28 +1573,138 @@ def stages(tier, seed):
     full = list(range(nL))
     core1 = [i for i in full if _L[i].core >= 1]
     core2 = [i for i in full if _L[i].core >= 2]
+    core3 = [i for i in full if _L[i].core >= 3]
     quick = tier == "quick"
 
     def seqs(alpha, length):
         return [s for s in itertools.product(alpha, repeat=length) if seq_valid(s)]
 
-    # stage 1
+    def cfg_dm(dt, split, ign):
+        return CONFIGS_DM.index((dt, split, ign))
+
+    ALL_DM = list(range(len(CONFIGS_DM)))
+    # ---- stage 1: density matrices
     dm_cases = []
     for s in seqs(full, 1):
         for init_i in (0, 1):
-            for layout in (0,):
-                for ci in range(len(CONFIGS_DM)):
-                    dm_cases.append((init_i, s, layout, ci))
-    for s in seqs(core1, 2):
-        for init_i in (0, 1):
-            for layout in (0, 1):
-                for ci in range(len(CONFIGS_DM)):
-                    dm_cases.append((init_i, s, layout, ci))
-    stages_ = [CaseStage("dm_final_state", dm_cases, run_dm, reset=reset, describe=describe_dm)]
+            for ci in ALL_DM:
+                dm_cases.append((init_i, s, 0, ci))
+    if quick:
+        for s in seqs(core1, 2):
+            for init_i in (0, 1):
+                for layout in (0, 1):
+                    for ci in ALL_DM:
+                        dm_cases.append((init_i, s, layout, ci))
+        rest = [i for i in full if _L[i].core == 0]
+        for x in rest:
+            for y in core2:
+                for s in ((x, y), (y, x)):
+                    if seq_valid(s):
+                        for ci in (cfg_dm("c128", False, False), cfg_dm("c128", True, False)):
+                            dm_cases.append((1, s, 0, ci))
+        for s in seqs(core1, 3):
+            dm_cases.append((0, s, 0, cfg_dm("c128", True, False)))
+            dm_cases.append((1, s, 0, cfg_dm("c64", False, False)))
+        for s in seqs(core2, 3):
+            for init_i in (0, 1):
+                for ci in (cfg_dm("c128", None, True), cfg_dm("c64", None, True)):
+                    dm_cases.append((init_i, s, 0, ci))
+    else:
+        for s in seqs(full, 2):
+            for init_i in (0, 1):
+                for layout in (0, 1):
+                    for ci in ALL_DM:
+                        dm_cases.append((init_i, s, layout, ci))
+        for s in seqs(core1, 3):
+            for init_i in (0, 1):
+                for ci in ALL_DM:
+                    dm_cases.append((init_i, s, 0, ci))
+        for s in seqs(core3, 4):
+            for init_i in (0, 1):
+                for ci in ALL_DM:
+                    dm_cases.append((init_i, s, 0, ci))
+    # ---- stage 2: trajectories
     sv_cases = []
+    ALL_SV = list(range(len(CONFIGS_SV)))
+    comb4 = [(0, CONFIGS_SV.index(("c128", True))), (1, CONFIGS_SV.index(("c128", False))),
+             (1, CONFIGS_SV.index(("c64", True))), (0, CONFIGS_SV.index(("c64", False)))]
+    comb2 = [(0, CONFIGS_SV.index(("c128", True))), (1, CONFIGS_SV.index(("c64", False)))]
     for s in seqs(full, 1):
         for init_i in (0, 1):
-            for ci in range(len(CONFIGS_SV)):
+            for ci in ALL_SV:
                 sv_cases.append((init_i, s, ci))
-    stages_.append(CaseStage("sv_trajectories", sv_cases, run_sv, reset=reset, describe=describe_sv))
-    return stages_
+    if quick:
+        for s in seqs(core1, 2):
+            for init_i, ci in comb4:
+                sv_cases.append((init_i, s, ci))
+        for s in seqs(core2, 3):
+            for init_i, ci in comb2:
+                sv_cases.append((init_i, s, ci))
+    else:
+        for s in seqs(full, 2):
+            for init_i, ci in comb4:
+                sv_cases.append((init_i, s, ci))
+        for s in seqs(core1, 3):
+            for init_i, ci in comb2:
+                sv_cases.append((init_i, s, ci))
+        for s in seqs(core3, 4):
+            sv_cases.append((1, s, CONFIGS_SV.index(("c128", True))))
+    # ---- stage 3: descriptions
+    desc_letters = [(i,) for i in full]
+    two = [i for i in full if not _L[i].qt and _L[i].kind != "cc"]
+    desc_circ = [((i,),) for i in two]
+    one_a = [i for i in two if tuple(_L[i].op.qubits) == (a,)]
+    one_b = [i for i in two if tuple(_L[i].op.qubits) == (b,)]
+    pa = one_a if not quick else [i for i in one_a if _L[i].core >= 1 or not _L[i].degenerate and _L[i].cls in ("generalized_amplitude_damp", "KrausChannel+key")][:40]
+    pb = one_b if not quick else [i for i in one_b if _L[i].core >= 1 or _L[i].cls in ("amplitude_damp", "phase_damp")][:40]
+    for i in pa:
+        for j in pb:
+            desc_circ.append(((i, j),))
+            desc_circ.append(((j, i),))
+    c1two = [i for i in core1 if i in two]
+    for i in c1two:
+        for j in c1two:
+            desc_circ.append(((i,), (j,)))
+    if not quick:
+        for i in c1two:
+            for j in c1two:
+                for k in c1two:
+                    desc_circ.append(((i,), (j,), (k,)))
+    qt_moms = [((i,),) for i in full if _L[i].qt and _L[i].kind != "cc"]
+    desc_circ += qt_moms
+    # ---- stage 4: noise models
+    models_plain = [("const", gi, pre) for gi in range(len(_NG)) for pre in (False, True)] + [("like_gate", 0), ("like_gate", 1),
+                                                                                             ("none",), ("subst",)]
+    models_phys = [("insertion", w, pre, req) for w in range(len(INSERT_TABLES)) for pre in (False, True) for req in (True, False)] + \
+                  [("thermal", ri, req, sk, pre) for ri in range(len(THERMAL_RATES)) for req in (True, False) for sk in (True, False)
+                   for pre in (False, True)]
+    noise_cases = []
+    maxm = 2 if quick else 3
+    phys_few = [m_ for k_, m_ in enumerate(models_phys) if k_ % 4 == (k_ // 4) % 4]  # every option value, not every combination
+    for alpha, A, models in ((0, _MA, models_plain), (1, _MB, models_phys)):
+        for ln in range(1, maxm + 1):
+            for midx in itertools.product(range(len(A)), repeat=ln):
+                ms = models
+                if alpha == 1 and ((quick and ln == 2) or ln == 3):
+                    ms = phys_few
+                if ln == 3 and alpha == 1 and midx[0] not in (1, 5, 6):
+                    continue
+                for model in ms:
+                    noise_cases.append((alpha, midx, model))
+    for ln in range(1, maxm + 1):
+        for midx in itertools.product(range(len(_MC)), repeat=ln):
+            if ln == 3 and midx[0] not in (0, 4, 6):
+                continue
+            for vi in range(len(PROPS)):
+                noise_cases.append((2, midx, ("props", vi)))
+    thermal_cases = [(ri, gname, pre) for ri in range(len(THERMAL_RATES))
+                     for gname in ("HPowGate", "XPowGate", "CNotPowGate", "CZPowGate", "MeasurementGate", "WaitGate") for pre in (False, True)]
+    return [
+        CaseStage("dm_final_state", dm_cases, run_dm, reset=reset, describe=describe_dm),
+        CaseStage("sv_trajectories", sv_cases, run_sv, reset=reset, describe=describe_sv),
+        CaseStage("channel_descriptions", desc_letters, run_desc_letter, reset=reset, describe=lambda c: _L[c[0]].name),
+        CaseStage("moment_circuit_superoperators", desc_circ, run_desc_circuit, reset=reset, describe=describe_desc_circuit),
+        CaseStage("noise_models", noise_cases, run_noise, reset=reset, describe=describe_noise),
+        CaseStage("thermal_noise_lindbladian", thermal_cases, run_thermal_kraus, reset=reset),
+        CaseStage("api_acceptance", [(i,) for i in range(len(API_CASES))], run_api, reset=reset, describe=lambda c: API_CASES[c[0]]),
+    ]
